@@ -33,21 +33,21 @@ Lemma nth_some_lt {A} (l : list A) k x : nth_error l k = Some x -> k < length l.
 Proof. intros H. apply nth_error_Some. congruence. Qed.
 
 (* ------------------------------------------------------------------ job table *)
-Ltac sp :=
+Ltac ssp :=
   cbn [val lock poisoned jobs wrapper_alive destroyed_by log set_val set_lock set_poisoned
        set_jobs set_alive set_destroyed emit jset push spawn_drop] in *.
 
 Lemma jget_jset s k j j' k' :
   jget s k = Some j -> jget (jset s k j') k' = if Nat.eqb k k' then Some j' else jget s k'.
 Proof.
-  unfold jget. sp. intros H. destruct (Nat.eqb_spec k k') as [<-|Hne].
+  unfold jget. ssp. intros H. destruct (Nat.eqb_spec k k') as [<-|Hne].
   - eapply nth_setn_same, H.
   - apply nth_setn_other, Hne.
 Qed.
 
 Lemma jget_push s j k' :
   jget (push s j) k' = if Nat.eqb k' (length (jobs s)) then Some j else jget s k'.
-Proof. unfold jget. sp. apply nth_snoc. Qed.
+Proof. unfold jget. ssp. apply nth_snoc. Qed.
 
 Lemma jget_lt s k j : jget s k = Some j -> k < length (jobs s).
 Proof. apply nth_some_lt. Qed.
@@ -154,7 +154,7 @@ Lemma step_mono s l s' :
 Proof.
   intros H k0 j0 H0. pose proof (nth_some_lt _ _ _ H0) as Hlt.
   destruct l as [k kd|k|k|k|k|k| |k]; cbn [step] in H; unfold jget in H; break H;
-    inversion H; subst; clear H; sp;
+    inversion H; subst; clear H; ssp;
     try (match goal with Hk : nth_error (jobs s) ?k = Some ?j |- _ =>
            jg Hk; rewrite ?(eqb_lt_false _ _ Hlt);
            destruct (Nat.eqb_spec k k0) as [->|Hne];
@@ -260,8 +260,8 @@ Proof.
                    (conj (fun h => I8 h _ _ Hx) (conj (fun h => proj2 (I5 h) _ _ Hx)
                    (conj (I10 _ _ Hx) (I11 _ _ Hx))))))).
   destruct l as [k kd|k|k|k|k|k| |k]; cbn [step] in H; unfold jget in H; break H;
-    inversion H; subst; clear H; sp;
-    constructor; sp; try assumption; intros; try (split; intros); cbn [In] in *;
+    inversion H; subst; clear H; ssp;
+    constructor; ssp; try assumption; intros; try (split; intros); cbn [In] in *;
     repeat match goal with
     | H : _ = _ \/ In _ _ |- _ => destruct H as [<-|H]; [|first [apply L, H|apply D, H]]
     end;
@@ -283,14 +283,14 @@ Proof.
     fields; rw_fields; preds; cbn [length placed] in *;
     try match goal with |- running ?st = false => destruct (running st) eqn:?; [exfalso|reflexivity] end;
     try solve [intuition (try congruence; try discriminate; try lia; eauto)];
-    try solve [sp; split; [reflexivity|]; eexists; split; [new_jobs; reflexivity|];
+    try solve [ssp; split; [reflexivity|]; eexists; split; [new_jobs; reflexivity|];
                fields; rw_fields; reflexivity];
-    try solve [sp; do 2 eexists; split; [reflexivity|]; split; [new_jobs; reflexivity|];
+    try solve [ssp; do 2 eexists; split; [reflexivity|]; split; [new_jobs; reflexivity|];
                fields; rw_fields; split; reflexivity].
   - rewrite E1. reflexivity.
   - rewrite I2' by discriminate. reflexivity.
   - split; [reflexivity|]. eexists. split.
-    + sp. new_jobs. rewrite (eqb_lt_false _ _ (nth_some_lt _ _ _ E)). reflexivity.
+    + ssp. new_jobs. rewrite (eqb_lt_false _ _ (nth_some_lt _ _ _ E)). reflexivity.
     + fields. rewrite E1. reflexivity.
   - apply andb_prop in E. destruct E as [Ea _]. destruct (I5 eq_refl) as [Hf _]. congruence.
 Qed.
